@@ -76,3 +76,35 @@ def get_deps(prop="C06"):
     c.ensures("own_uses_then_the_dependencies_of_every_routine_and_interface_procedure_at_any_depth", post)
     c.no_raise = True
     return c
+
+
+def deplist_obligations(prop="C06", replay=None):
+    """Project.correlate: every dependency list (`X.deplist = ...`) is built from filter_modules(X) - the modules used by X *and by everything nested in it* (get_deps, under
+    contract) - for the same entity X.  The lists order the correlation of modules and submodules (toposort) and are the edges of the file graphs."""
+    import ast
+    from harness import loader
+    from harness.core import OR, PROVED, REFUTED, UNKNOWN
+    try:
+        fn = loader.find_def("ford.fortran_project", "Project.correlate")
+    except loader.TargetMissing as e:
+        return [OR(id=f"{prop}.S.Project.correlate.deplist", status=UNKNOWN, kind="S", target="ford.fortran_project.Project.correlate", detail=str(e))]
+    sites = [n for n in ast.walk(fn) if isinstance(n, ast.Assign) and len(n.targets) == 1 and isinstance(n.targets[0], ast.Attribute) and n.targets[0].attr == "deplist"
+             and isinstance(n.targets[0].value, ast.Name)]
+    out = []
+    if len(sites) < 3:
+        out.append(OR(id=f"{prop}.S.Project.correlate.deplist.anchor", status=UNKNOWN, kind="S", target="ford.fortran_project.Project.correlate",
+                      detail=f"expected the deplist assignments for modules, submodules and program units, found {len(sites)}"))
+    for k, st in enumerate(sites):
+        ent = st.targets[0].value.id
+        calls = [c for c in ast.walk(st.value) if isinstance(c, ast.Call) and isinstance(c.func, ast.Name) and c.func.id == "filter_modules"
+                 and len(c.args) == 1 and isinstance(c.args[0], ast.Name) and c.args[0].id == ent]
+        ok = bool(calls)
+        r = OR(id=f"{prop}.S.Project.correlate.deplist.site{k}", status=PROVED if ok else REFUTED, kind="S", role="post", backend="ast", target="ford.fortran_project.Project.correlate",
+               desc=f"`{ast.unparse(st)[:100]}` (line {st.lineno}): the dependency list of `{ent}` holds filter_modules({ent}), the modules used anywhere inside it")
+        if not ok:
+            r.witness = {"assignment": ast.unparse(st), "line": st.lineno}
+            r.detail = f"the list is not built from filter_modules({ent}): USE statements of the unit or of what it contains do not order its correlation / do not reach the graphs"
+            if replay:
+                r.replay = replay()
+        out.append(r)
+    return out
